@@ -367,5 +367,5 @@ LEVEL_NOTE = ('Trusted: the reference grammar (refmanifest.py), Python str.split
               'whitespace semantics, Hypothesis. DONT-CARE zones are listed '
               'in the assumptions and never produce a verdict mismatch.')
 TECHNIQUE = ('property-based testing (Hypothesis grammar + mutation '
-             'generators) and bounded-exhaustive enumeration against a '
-             'reference parser')
+             'generators), bounded-exhaustive enumeration and coverage-guided '
+             'fuzzing (atheris/libFuzzer) against a reference parser')
